@@ -801,6 +801,11 @@ func (t *TupleType) TypeDeclaration(*jen.File) {
 // error.
 func (t *TupleType) Marshal(tupleID string, writer string) *Statement {
 	statements := make([]jen.Code, 0)
+	if len(t.Members) != 0 {
+		// the statements below assign to err: declare it, the
+		// enclosing code does not always have one in scope.
+		statements = append(statements, jen.Var().Err().Error())
+	}
 	for _, typ := range t.Members {
 		s1 := jen.Err().Op("=").Add(typ.Type.Marshal(tupleID+"."+strings.Title(typ.Name), writer))
 		s2 := jen.Id(`if (err != nil) {
